@@ -71,8 +71,9 @@ def execute(comp, keep=False):
                     Xw0 = RC.linear_predictor(prob, w0) if len(w0) == Xd.shape[1] + prob["fit_intercept"] else None
                     if Xw0 is not None and Xw0.ndim == 2:
                         Xw0 = np.asfortranarray(Xw0)
-            build.seed_numba(derive_seed("solve", sspec, comp["penalty"], comp.get("datafit"), comp.get("storage"),
-                                         comp["X"], comp.get("w_init")))
+            # RNG (power method) seed: a function of the data and components only, NOT of budgets/knobs, so that
+            # runs with different budgets are prefixes of one trajectory
+            build.seed_numba(derive_seed("solve", sspec["name"], comp.get("datafit"), comp.get("storage"), comp["X"]))
             out = solver.solve(X, y, datafit, penalty, w0, Xw0)
         w, obj, sc = out
         res.update(w=np.array(w, dtype=float), obj_out=np.atleast_1d(np.array(obj, dtype=float)), stop_crit=float(sc),
